@@ -2,7 +2,7 @@
    Statements only; every proof is `exact <lemma of Proofs/C03_Alloc.v>`.
    Quantification: every time `now`, every input (factors, current, metrics one per peer,
    exclusion and priority lists, strategy) and every iteration order `ord` of the Go map. *)
-From V Require Import Base.Common Model.C03_Alloc Proofs.C03_Alloc.
+From V Require Import Base.Common Model.C03_Alloc Model.C03_Check Proofs.C03_Alloc Proofs.C03_Monitor.
 From Coq Require Import Permutation Sorting.Sorted.
 Open Scope Z_scope.
 
@@ -80,3 +80,59 @@ Example alloc_example :
                               mk_metric 3 None 3600 true; mk_metric 5 (Some 30%N) 3600 true] [] [5%N] false in
   one_metric_per_peer i /\ valid_factors (rmin i) (rmax i) /\ allocate 0 i (fun x => x) = Ok [1; 5; 2]%N.
 Proof. split; [|split]; [unfold one_metric_per_peer; simpl; repeat constructor; simpl; intuition discriminate | unfold valid_factors; simpl; lia | reflexivity]. Qed.
+
+(* ---- the run-time monitor spec_okb (Model/C03_Check.v) and the theorems above ---- *)
+
+(* completeness: for every input the harness may produce (one metric per peer, duplicate-free current list) and every map
+   order, what the model answers passes the monitor. Hence an implementation answer equal to the model's never raises
+   code 2, and the monitor demands nothing the model does not deliver. *)
+Theorem alloc_model_passes_monitor now i ord : order_oracle ord -> one_metric_per_peer i -> NoDup (current i) ->
+  spec_okb now i (obs_of (allocate now i ord)) = true.
+Proof. exact (alloc_model_passes_monitor_l now i ord). Qed.
+Print Assumptions alloc_model_passes_monitor.
+
+(* soundness: an observed list accepted by the monitor satisfies every clause of the property (alloc_spec, Proofs/C03_Monitor.v:
+   no duplicates; added peers healthy, numeric, not excluded; healthy holders kept, or exactly max of them and nothing else;
+   min <= healthy <= max; nothing added unless below min; added = priority part ++ other part, each sorted in the strategy's
+   direction with no strictly better choosable peer left out, others only after every choosable priority peer) *)
+Theorem alloc_monitor_sound now i l : one_metric_per_peer i -> NoDup (current i) -> valid_factors (rmin i) (rmax i) ->
+  spec_okb now i (ObsOk l) = true -> alloc_spec now i l.
+Proof. exact (fun Hm => alloc_monitor_sound_l now i Hm l). Qed.
+Print Assumptions alloc_monitor_sound.
+
+(* an observed error is accepted only when fewer than min peers are reachable ... *)
+Theorem alloc_monitor_err_sound now i : valid_factors (rmin i) (rmax i) ->
+  spec_okb now i ObsErr = true -> reachable now i < rmin i.
+Proof. exact (alloc_monitor_err_sound_l now i). Qed.
+Print Assumptions alloc_monitor_err_sound.
+
+(* ... where `reachable` bounds every duplicate-free list of usable peers: no admissible allocation of min peers exists *)
+Theorem alloc_reachable_bounds_usable now i l : one_metric_per_peer i -> NoDup l ->
+  (forall p, In p l -> healthy now i p /\ (In p (current i) \/ exists m, In m (metrics i) /\ mpeer m = p /\ mval m <> None)) ->
+  Z.of_nat (length l) <= reachable now i.
+Proof. exact (fun Hm => reachable_bounds_usable now i Hm l). Qed.
+Print Assumptions alloc_reachable_bounds_usable.
+
+Theorem alloc_monitor_everywhere now i o : rmin i < 0 -> rmax i < 0 -> spec_okb now i o = true -> o = ObsOk [].
+Proof. exact (alloc_monitor_everywhere_l now i o). Qed.
+Print Assumptions alloc_monitor_everywhere.
+
+(* composition of the two: the model's answers satisfy the Prop-level property *)
+Theorem alloc_model_satisfies_spec now i ord l : order_oracle ord -> one_metric_per_peer i -> NoDup (current i) ->
+  valid_factors (rmin i) (rmax i) -> allocate now i ord = Ok l -> alloc_spec now i l.
+Proof. exact (alloc_model_satisfies_spec_l now i ord l). Qed.
+Print Assumptions alloc_model_satisfies_spec.
+
+(* non-vacuity: the monitor accepts a list with a priority and an ordinary added peer, rejects the same peers in the
+   wrong order, and accepts an error exactly when min is out of reach *)
+Example alloc_monitor_example :
+  let i := mk_input 2 3 [1%N] [mk_metric 1 (Some 70%N) 3600 true; mk_metric 2 (Some 10%N) 3600 true;
+                              mk_metric 3 None 3600 true; mk_metric 5 (Some 30%N) 3600 true; mk_metric 6 (Some 20%N) 3600 true] [] [5%N] false in
+  one_metric_per_peer i /\ NoDup (current i) /\ valid_factors (rmin i) (rmax i) /\
+  spec_okb 0 i (ObsOk [1; 5; 2]%N) = true /\ spec_okb 0 i (ObsOk [1; 2; 5]%N) = false /\ spec_okb 0 i (ObsOk [1; 5; 6]%N) = false /\
+  spec_okb 0 i ObsErr = false /\ spec_okb 0 (mk_input 5 5 [1%N] (metrics i) [] [5%N] false) ObsErr = true.
+Proof. cbv zeta. split; [|split; [|split]].
+  - unfold one_metric_per_peer; simpl; repeat constructor; simpl; intuition discriminate.
+  - simpl; repeat constructor; simpl; tauto.
+  - unfold valid_factors; simpl; lia.
+  - repeat split; vm_compute; reflexivity. Qed.
